@@ -43,8 +43,8 @@ fn main() {
             "steps-arr" | "steps-rb" | "steps-arr-far" => props::c11::replay(&kind, &v["case"]),
             "derived" | "trace" | "dual" => props::c12::replay(&kind, &v["case"]),
             "ext" | "hist" => props::c13::replay(&kind, &v["case"], v["key"].as_str().unwrap_or("")),
-            "cost" | "cost-trace" | "cost-ext" | "cost-hist" => props::c14::replay(&kind, &v["case"], v["key"].as_str().unwrap_or("")),
-            "poisson" | "poisson-pmf" => props::c15::replay(&kind, &v["case"]),
+            "cost" | "cost-trace" | "cost-ext" | "cost-hist" | "cost-iter" => props::c14::replay(&kind, &v["case"], v["key"].as_str().unwrap_or("")),
+            "poisson" | "poisson-pmf" | "poisson-approx" => props::c15::replay(&kind, &v["case"]),
             "rb-compose" => props::c16::replay(&v["case"]),
             "harden" | "agree" => props::c1719::replay(&kind, &v["case"]),
             "c20-case" => props::c20::replay(&v["case"]),
